@@ -58,3 +58,18 @@ def main():
                     rc = 1
     print("setup rc=%d  %.1fs" % (rc, time.time() - t0))
     return rc
+
+
+def coqchk():
+    """coqchk -o on every compiled property file (independent re-check of the .vo files and everything
+    they depend on; prints the axioms of every loaded library).  Output kept in evidence/coqchk.txt."""
+    import re
+    pdir = os.path.join(core.COQ, "theories", "Properties")
+    mods = sorted("Catii.Properties." + f[:-3] for f in os.listdir(pdir) if f.endswith(".vo"))
+    t0 = time.time()
+    rc, out = core.sh("timeout 3000 coqchk -silent -o -R theories Catii " + " ".join(mods), cwd=core.COQ, timeout=3100)
+    tail = out[-6000:]
+    with open(os.path.join(core.VERIF, "evidence", "coqchk.txt"), "w") as f:
+        f.write("# coqchk -o -R theories Catii %s\n# rc=%d wall=%.0fs\n%s\n" % (" ".join(mods), rc, time.time() - t0, tail))
+    print(tail)
+    return rc
